@@ -1312,6 +1312,16 @@ def main(tier, seed):
     ]
     ok, log, errs = proof_phase(rep, families=["lua"])
     build_server()
+    # a private copy of the binary: the source facts read now and every server started during this run belong to the
+    # same tree even if another check rebuilds the shared binary meanwhile
+    import server as _server
+    import shutil
+    bin_dir = os.path.join(CACHE, "run", "c12-bin-%d" % os.getpid())
+    os.makedirs(bin_dir, exist_ok=True)
+    shared_bin = _server.SERVER_BIN
+    with BuildLock("cargo-bin"):
+        shutil.copy2(shared_bin, os.path.join(bin_dir, "ferrous"))
+    _server.SERVER_BIN = os.path.join(bin_dir, "ferrous")
     findings = load_findings()
     ck = Checker(rep, findings, tier)
     r = Rng(seed)
@@ -1329,6 +1339,8 @@ def main(tier, seed):
         verdict(ck, ok, log, errs)
     finally:
         ck.drv.close()
+        _server.SERVER_BIN = shared_bin
+        shutil.rmtree(bin_dir, ignore_errors=True)
     return rep.finish()
 
 
